@@ -803,6 +803,9 @@ class WMSGroupLayer(WMSLayerBase):
         self.res_range = merge_layer_res_ranges(all_layers)
 
     def is_opaque(self, query):
+        if self.this:
+            # only the sources of the group layer itself are rendered
+            return self.this.is_opaque(query)
         return any(x.is_opaque(query) for x in self.layers)
 
     @property
